@@ -51,14 +51,25 @@ Theorem C24_defect_rejected_key_count :
     occ anywhere (NIndexed ix (NId m)) p -> check p <> [].
 Proof. exact (wrong_key_count re_caps max_re). Qed.
 
-(* a block in which a metric or literal pattern constant named x is directly
-   followed by another metric, constant or decorator declaration named x *)
-Theorem C24_defect_rejected_redeclared_partial :
-  forall x d1 d2 before after p,
-    simple_decl x d1 ->
-    ((exists k, d2 = NVarDecl x k) \/ (exists q, d2 = NConst x q) \/ (exists b, d2 = NDecoDecl x b)) ->
-    occ anywhere (NStmtList (napp before (NCons d1 (NCons d2 after)))) p -> check p <> [].
-Proof. exact (redeclared re_caps max_re). Qed.
+(* a block in which two declarations (metric, pattern constant or decorator,
+   in any combination and order) introduce the same name x, with arbitrary
+   statements before, between and after them *)
+Theorem C24_defect_rejected_redeclared :
+  forall x k1 k2 d1 d2 before mid after p,
+    declares x k1 d1 -> declares x k2 d2 ->
+    occ anywhere (NStmtList (napp before (NCons d1 (napp mid (NCons d2 after))))) p -> check p <> [].
+Proof. exact (redeclared_gen re_caps max_re). Qed.
+
+(* a declaration (metric, pattern constant or decorator) of a name x that no
+   identifier, indexed expression or decoration of the program mentions, at
+   any position of any block *)
+Theorem C24_defect_rejected_unused :
+  forall x k d before after p,
+    k <> KCapref -> declares x k d ->
+    all_nodes (no_use x) p ->
+    all_nodess (no_use x) (napp before (NCons d after)) ->
+    occ anywhere (NStmtList (napp before (NCons d after))) p -> check p <> [].
+Proof. intros x k d before after p Hk. exact (unused_decl re_caps max_re x k Hk d before after p). Qed.
 
 (* a regular expression literal that does not parse / exceeds the limit *)
 Theorem C24_defect_rejected_invalid_regex :
@@ -87,17 +98,6 @@ Proof.
 Qed.
 
 End C24.
-
-(* NOT PROVED (kept visible; see notes/C24.md):
-   C24_defect_rejected_unused :
-     forall x k before after p,
-       (no NId x, no NIndexed _ (NId x) anywhere in p) ->
-       occ anywhere (NStmtList (napp before (NCons (NVarDecl x k) after))) p -> check p <> [].
-   C24_defect_rejected_redeclared (full): d1 and d2 any two declarations of x in
-     the same block, with arbitrary statements between them.
-   Both need the lemma that walking a statement leaves the enclosing scopes in
-   place and only adds symbols to the current one; they are covered by the
-   executable model through the correspondence only. *)
 
 (* non-vacuity: concrete programs, evaluated by the model *)
 Definition no_re (_ : bytes) : option (list (list bytes)) := Some [[[48]]].   (* every pattern parses, group "0" only *)
@@ -132,14 +132,30 @@ Example C24_example_accepts :
                              (NStmtList (NCons (NUnary (NIndexed NNil (NId b_c))) NNil)) NLeaf) NNil))) = [].
 Proof. vm_compute. reflexivity. Qed.
 
+(* counter c / counter u / /re/ { c++ }  : u is declared and never used;
+   counter c / /re/ { c++ } / gauge c     : c declared twice with a block between *)
+Example C24_example_unused_redeclared :
+  check no_re 1024
+    (NStmtList (NCons (NVarDecl b_c 0) (NCons (NVarDecl b_x 0)
+       (NCons (NCond (NUnary (NPattern (NPatLit [97])))
+                     (NStmtList (NCons (NUnary (NIndexed NNil (NId b_c))) NNil)) NLeaf) NNil)))) = [EUnused]
+  /\ check no_re 1024
+    (NStmtList (NCons (NVarDecl b_c 0)
+       (NCons (NCond (NUnary (NPattern (NPatLit [97])))
+                     (NStmtList (NCons (NUnary (NIndexed NNil (NId b_c))) NNil)) NLeaf)
+       (NCons (NVarDecl b_c 0) NNil)))) = [ERedeclVar].
+Proof. split; vm_compute; reflexivity. Qed.
+
 Print Assumptions C24_defect_rejected_undeclared_metric.
 Print Assumptions C24_defect_rejected_capture_group.
 Print Assumptions C24_defect_rejected_undefined_decorator.
 Print Assumptions C24_defect_rejected_next_outside_decorator.
 Print Assumptions C24_defect_rejected_key_count.
-Print Assumptions C24_defect_rejected_redeclared_partial.
+Print Assumptions C24_defect_rejected_redeclared.
+Print Assumptions C24_defect_rejected_unused.
 Print Assumptions C24_defect_rejected_invalid_regex.
 Print Assumptions C24_defect_rejected_long_regex.
 Print Assumptions C24_defect_rejected_zero_divisor.
 Print Assumptions C24_example_undeclared.
 Print Assumptions C24_example_accepts.
+Print Assumptions C24_example_unused_redeclared.
